@@ -1,0 +1,41 @@
+
+ /******************************************************************************
+ *    This program is free software: you can redistribute it and/or modify     *
+ *   it under the terms of the GNU General Public License as published by      *
+ *   the Free Software Foundation, either version 3 of the License, or         *
+ *   (at your option) any later version.                                       *
+ *                                                                             *
+ *   This program is distributed in the hope that it will be useful,           *
+ *   but WITHOUT ANY WARRANTY; without even the implied warranty of            *
+ *   MERCHANTABILITY or FITNESS FOR A PARTICULAR PURPOSE.  See the             *
+ *   GNU General Public License for more details.                              *
+ *                                                                             *
+ *   You should have received a copy of the GNU General Public License         *
+ *   along with this program.  If not, see <http://www.gnu.org/licenses/>.     *
+ *                                                                             *   
+ *   Authors:                                                                  *
+ *      Carlos Arguelles (University of Wisconsin Madison)                     * 
+ *         carguelles@icecube.wisc.edu                                         *
+ *      Christopher Weaver (University of Wisconsin Madison)                   * 
+ *         chris.weaver@icecube.wisc.edu                                       *
+ *      Jordi Salvado (University of Wisconsin Madison)                        *
+ *         jsalvado@icecube.wisc.edu                                           *
+ ******************************************************************************/
+
+///\file
+///Library version number constants
+
+#ifndef SQUIDS_VERSION_HPP
+#define SQUIDS_VERSION_HPP
+
+///\brief Machine readable version number
+///
+/// SQUIDS_VERSION / 100000 is the major version \n
+/// SQUIDS_VERSION / 100 % 1000 is the minor version \n
+/// SQUIDS_VERSION % 100 is the patch level
+#define SQUIDS_VERSION 100300
+
+///\brief Human readable version number
+#define SQUIDS_VERSION_STR "1.3.0"
+
+#endif //SQUIDS_VERSION_HPP
